@@ -156,6 +156,8 @@ impl Acc {
     }
     pub fn violation(&mut self, f: &Findings, prop: &str, v: Violation) {
         if let Some(fd) = f.classify(prop, &v) {
+            let key = format!("known:{}|{}", fd.id, v.clause);
+            *self.hist.entry(key).or_insert(0) += 1;
             let e = self.known.entry(fd.id.clone()).or_insert((0, None));
             e.0 += 1;
             let smaller = e.1.as_ref().map(|o| v.input.size() < o.input.size()).unwrap_or(true);
@@ -165,10 +167,24 @@ impl Acc {
             return;
         }
         self.viol_total += 1;
-        // keep the smallest inputs
-        if self.viol.len() < KEEP {
-            self.viol.push(v);
-        } else if let Some((i, _)) = self.viol.iter().enumerate().max_by_key(|(_, x)| x.input.size()) {
+        let key = format!("violation:{}|{}|{}", v.clause, v.context.get("variant").and_then(|x| x.as_str()).unwrap_or("-"), v.context.get("profile").and_then(|x| x.as_str()).unwrap_or("-"));
+        self.bump(&key);
+        self.keep(v);
+    }
+    fn vkey(v: &Violation) -> String {
+        format!("{}|{}|{}", v.clause, v.context.get("variant").and_then(|x| x.as_str()).unwrap_or("-"), v.context.get("profile").and_then(|x| x.as_str()).unwrap_or("-"))
+    }
+    /// keep at most 3 smallest witnesses per (clause, variant, profile), at most KEEP keys*3 overall
+    fn keep(&mut self, v: Violation) {
+        let k = Self::vkey(&v);
+        let same: Vec<usize> = self.viol.iter().enumerate().filter(|(_, x)| Self::vkey(x) == k).map(|(i, _)| i).collect();
+        if same.len() < 3 {
+            if self.viol.len() < KEEP * 3 {
+                self.viol.push(v);
+            }
+            return;
+        }
+        if let Some(&i) = same.iter().max_by_key(|&&i| self.viol[i].input.size()) {
             if v.input.size() < self.viol[i].input.size() {
                 self.viol[i] = v;
             }
@@ -182,13 +198,7 @@ impl Acc {
         }
         a.viol_total += b.viol_total;
         for v in b.viol {
-            if a.viol.len() < KEEP {
-                a.viol.push(v);
-            } else if let Some((i, _)) = a.viol.iter().enumerate().max_by_key(|(_, x)| x.input.size()) {
-                if v.input.size() < a.viol[i].input.size() {
-                    a.viol[i] = v;
-                }
-            }
+            a.keep(v);
         }
         for (k, (n, w)) in b.known {
             let e = a.known.entry(k).or_insert((0, None));
@@ -268,7 +278,7 @@ impl Ctx {
         let mut viol_sorted: Vec<&Violation> = acc.viol.iter().collect();
         viol_sorted.sort_by_key(|v| (v.input.size(), v.clause.clone(), v.input.to_json().to_string()));
         let mut replay_paths = vec![];
-        for (i, v) in viol_sorted.iter().take(20).enumerate() {
+        for (i, v) in viol_sorted.iter().take(30).enumerate() {
             let p = replay_dir.join(format!("{}-{:03}.json", self.prop, i + 1));
             let body = json!({
                 "property": self.prop, "tier": self.tier.name(), "clause": v.clause, "input": v.input.to_json(),
